@@ -1386,6 +1386,22 @@ class Interp:
             ex.heap[fr.locals[l]] = h
         ex.heap[fr.locals[itl]] = Opaque('iter_done', desc=desc)
         ex.loopmode[lk] = 'exit'
+        self.summarise_stores(rec, st, ex, collected)
+        self.check_interference(rec, ex)
+        if rec.paths == 0:
+            # every path of the body ends in a (recorded) panic: the code after the loop is
+            # reached only when the loop does not iterate at all
+            try:
+                ex.assume(X.binop('eq', n, X.const(n.ty, 0)))
+                if self.decide(ex, X.binop('eq', n, X.const(n.ty, 0))) is False:
+                    return []
+            except PathEnd:
+                return []
+        return [(ex, L['header'])]
+
+    def summarise_stores(self, rec, st, ex, collected):
+        """turn the stores made during one symbolic iteration into quantified store summaries of the exit state"""
+        from .resolve import deflatten_store
         # dedupe stores (same Store object reached on several paths after it was made)
         seen = set()
         collected.sort(key=lambda x: x[1].seq)
@@ -1426,17 +1442,6 @@ class Interp:
                     new = d
             rec.stores.append((o, new))
             ex.heap[o] = ex.heap[o].with_store(new)
-        self.check_interference(rec, ex)
-        if rec.paths == 0:
-            # every path of the body ends in a (recorded) panic: the code after the loop is
-            # reached only when the loop does not iterate at all
-            try:
-                ex.assume(X.binop('eq', n, X.const(n.ty, 0)))
-                if self.decide(ex, X.binop('eq', n, X.const(n.ty, 0))) is False:
-                    return []
-            except PathEnd:
-                return []
-        return [(ex, L['header'])]
 
     def check_interference(self, rec, ex):
         """A buffer that is both loaded and stored in a summarised loop must be accessed
